@@ -122,10 +122,12 @@ func (t Table) DDL() []string {
 }
 
 func (t Table) Migrate(ctx context.Context, pg Conn) error {
-	for _, stmt := range t.DDL() {
-		if _, err := pg.Exec(ctx, stmt); err != nil {
-			return fmt.Errorf("table %q stmt %q: %w", t.Name, stmt, err)
-		}
+	// The table comes first, then the columns that an
+	// existing table is missing and the indexes last:
+	// an index may be on a column that is added here.
+	ddl := t.DDL()
+	if _, err := pg.Exec(ctx, ddl[0]); err != nil {
+		return fmt.Errorf("table %q stmt %q: %w", t.Name, ddl[0], err)
 	}
 	diff, err := Diff(ctx, pg, t.Name, t.Columns)
 	if err != nil {
@@ -140,6 +142,11 @@ func (t Table) Migrate(ctx context.Context, pg Conn) error {
 		)
 		if _, err := pg.Exec(ctx, q); err != nil {
 			return fmt.Errorf("adding column %s/%s: %w", t.Name, c.Name, err)
+		}
+	}
+	for _, stmt := range ddl[1:] {
+		if _, err := pg.Exec(ctx, stmt); err != nil {
+			return fmt.Errorf("table %q stmt %q: %w", t.Name, stmt, err)
 		}
 	}
 	return nil
